@@ -206,15 +206,21 @@ def e2e_pel(draw, i):
         else:
             secs.append(draw(S.raw_section()))
     plid = draw(st.sampled_from([0x50000001, 0x50000002]))
-    return M.minimal_pel(secs, ph=M.default_ph(eid=0x50000100 + i, plid=plid, creator=ord('O')))
+    pel = M.minimal_pel(secs, ph=M.default_ph(eid=0x50000100 + i, plid=plid, creator=ord('O')))
+    if draw(st.integers(0, 3)) == 0:
+        pel['uh']['flags'] |= 0x4000        # hidden: not displayed by default, sits between displayed PELs
+    return pel
 
 
 @st.composite
 def e2e_case(draw):
-    n = draw(st.integers(1, 3))
+    n = draw(st.one_of(st.integers(1, 3), st.integers(3, 5)))
     pels = [draw(e2e_pel(i)) for i in range(n)]
+    pels[0]['uh']['flags'] &= ~0x4000       # the first file is always displayed (-f uses it)
     mode = draw(st.sampled_from(['-f', '-a', '-l', '--plid', '--src', '-j', 'parsePEL']))
-    return {'pels': pels, 'mode': mode, 'real': draw(st.integers(0, 9)) == 0}
+    return {'pels': pels, 'mode': mode, 'real': draw(st.integers(0, 9)) == 0,
+            # output files left behind by an earlier run (longer than the new document)
+            'stale_outputs': draw(st.booleans()), 'junk_between': draw(st.integers(0, 3)) == 0}
 
 
 @PROP.given('end-to-end', lambda tier: e2e_case(), quick=250, thorough=8000, shards_quick=8)
@@ -228,6 +234,12 @@ def end_to_end(case, note):
             names.append(fn)
             with open(fn, 'wb') as f:
                 f.write(M.encode(p))
+            if case.get('stale_outputs'):
+                with open(os.path.join(outdir, 'pel%02d.%08X.json' % (i, p['ph']['eid'])), 'w') as f:
+                    f.write('{"stale": "%s"}\n' % ('x' * 20000))
+        if case.get('junk_between') and len(case['pels']) >= 2:
+            with open(os.path.join(d, 'pel00_junk'), 'wb') as f:
+                f.write(b'not a PEL')
         recorded = []
         orig = R.peltool.prettyPrint
 
@@ -268,7 +280,10 @@ def end_to_end(case, note):
                 texts = []
                 for fn in files:
                     with open(os.path.join(outdir, fn)) as f:
-                        texts.append(f.read())
+                        t = f.read()
+                    if t.startswith('{"stale"') and t.rstrip().endswith('"}'):
+                        continue        # left over from the earlier run for a PEL that is not displayed now
+                    texts.append(t)
                 befores = sorted(b for b, _ in recorded)
                 if recorded and len(texts) != len(recorded):
                     raise Violation('C06.json-files', '%d files written for %d decoded documents' % (len(texts), len(recorded)))
